@@ -25,7 +25,9 @@ func init() {
 	})
 	facet.RegisterKnown("c08EmptyCollectionNestedPlaceholder", causeIs("dynamic-leak", causeEmptyCollection))
 	facet.RegisterKnown("c08NullMemberMarksDropped", causeIs("idempotent-changed", causeNullMemberMarks))
-	facet.RegisterKnown("c08UnknownMapOptionalPlaceholder", causeIs("admits/type", causeUnknownMapOptDyn))
+	facet.RegisterKnown("c08UnknownMapOptionalPlaceholder", func(facetName string, raw json.RawMessage, f *facet.Failure) bool {
+		return f != nil && (f.Kind == "admits/type" || f.Kind == "abstract-fails") && f.Data["cause"] == causeUnknownMapOptDyn
+	})
 	facet.RegisterKnown("c08DynamicReplaceShapeMismatch", func(facetName string, raw json.RawMessage, f *facet.Failure) bool {
 		return f != nil && (f.Kind == "panic" || f.Kind == "nonconformant") && f.Data["cause"] == causeShapeMismatch
 	})
